@@ -5,7 +5,7 @@ import random, json, sys
 from ..harness import impl, coq
 
 pid = 'C15'
-gen_modules = ['tr_testing', 'tr_validators', 'tr_contracts', 'tr_rest_validators', 'tr_rest_testing', 'tr_rest_contractsconst', 'tr_rest_records']
+gen_modules = ['tr_testing', 'tr_validators', 'tr_contracts', 'tr_rest_validators', 'tr_rest_testing', 'tr_rest_contractsconst', 'tr_rest_records', 'tr_pin_introspect']
 model_targets = ['Gen/Testing.v']
 hand_modelled = ['hypothesis (strategies, seeds, the number of examples) is an oracle: the theorems start from the candidates it hands over']
 explanation = ('Theorems on TestCase.__call__ and the wrapper of deal.cases regenerated from deal/_testing.py: a candidate becomes a test case iff every precondition accepts it; '
@@ -32,11 +32,15 @@ def build(rnd):
     raises = rnd.choice([None, None, "ValueError", "LookupError"])
     body_raise = rnd.choice([None, "ValueError", "KeyError", "ZeroDivisionError"]) if rnd.random() < .5 else None
     post = rnd.random() < .3
-    src = "import deal\n"
+    src = "import deal, functools\ndef logged(fn):\n    @functools.wraps(fn)\n    def w(*a, **k): return fn(*a, **k)\n    return w\n"
     pexc = rnd.choice([None, None, "ValueError", "KeyError"])      # a custom precondition error type that the body may raise too
-    for p, _ in pres: src += f"@deal.pre({p}{', exception=' + pexc if pexc else ''})\n"
-    if raises: src += f"@deal.raises({raises})\n"
-    if post: src += "@deal.post(lambda r: r != 12345)\n"
+    decos = [f"@deal.pre({p}{', exception=' + pexc if pexc else ''})\n" for p, _ in pres]
+    if raises: decos.append(f"@deal.raises({raises})\n")
+    if post: decos.append("@deal.post(lambda r: r != 12345)\n")
+    if rnd.random() < .3:
+        # functools.wraps-style foreign decorators above / between / below the deal decorators
+        for _ in range(rnd.randint(2, 3)): decos.insert(rnd.randint(0, max(0, len(decos) - 1)), "@logged\n")
+    src += "".join(decos)
     src += f"def f({', '.join(n + ': ' + t for n, t in zip(names, types))}):\n"
     src += "    LOG.append((" + ", ".join(names) + ",))\n"
     if body_raise and types[0] == "int": src += f"    if {names[0]} % 3 == 0: raise {body_raise}('x')\n"
